@@ -106,6 +106,8 @@ func runC03(p *core.Program, r *core.Report) {
 	r.Rule("C03.zipstatus", "doZip marks the pack ZIPPED exactly when it compresses; doUnZip decompresses exactly when marked", 1)
 	r.Rule("C03.errcheck", "a value obtained together with an error is not consumed on the err != nil branch", 2)
 
+	r.Rule("C03.in-place", "decoders store what they read into the container itself (no decode into a range copy, no append after a full-length make)", 60)
+	decodeInPlace(p, x, r, "C03.in-place", []string{"lang/pack"})
 	checkRegistry(p, r, "C03.registry", "lang/pack", "CreatePack", "Pack", "GetPackType")
 
 	pairs, unpaired := discoverPairs(p, x, []string{"lang/pack"})
